@@ -1,8 +1,8 @@
 (* C03 — property theorems only (f64.Int; raw values are int64, M = 10^D with 1 <= D <= 16, so 10 <= M <= 10^16).
    fits x says x is representable (an int64). Z.quot / Z.rem truncate toward zero. The f128 methods are the same formulas over the
-   Int128 model of C01 (Model.v) and are tied to the code by the correspondence check. *)
+   Int128 model of C01 (Model.v); their theorems (second half of this file) rest on the C01 theorems for Int128 Add/Sub/Mul/Div. *)
 From Coq Require Import ZArith List Bool.
-From Verif Require Import common.Word64 C03.Model C03.Proofs.
+From Verif Require Import common.Word64 C01.Model C03.Model C03.Proofs C03.Proofs128.
 Open Scope Z_scope.
 
 Theorem C03_add_sub_exact : forall a b, (fits (a + b) -> add a b = a + b) /\ (fits (a - b) -> sub a b = a - b).
@@ -63,3 +63,50 @@ Print Assumptions C03_as_from_roundtrip.
 Example C03_ex_round_negative_half : round 10 (-25) = -30 /\ round 10 25 = 30 /\ round 10 (-24) = -20.
 Proof. repeat split. Qed.
 Example C03_ex_from_int8 : from_int 10000 5 = 50000. Proof. reflexivity. Qed.
+
+(* ---------------- f128.Int: the same laws over Int128 (values read with sval; fits128 = representable in 128 bits) ---------------- *)
+Theorem C03_f128_add_sub_exact : forall a b, wf a -> wf b ->
+  (fits128 (sval a + sval b) -> sval (add128 a b) = sval a + sval b) /\ (fits128 (sval a - sval b) -> sval (sub128 a b) = sval a - sval b).
+Proof. intros a b Wa Wb. split; intro F; [exact (proj2 (add128_exact a b Wa Wb F))|exact (proj2 (sub128_exact a b Wa Wb F))]. Qed.
+Print Assumptions C03_f128_add_sub_exact.
+Theorem C03_f128_mul_truncates_toward_zero : forall M, 10 <= M <= 10000000000000000 -> forall a b, wf a -> wf b -> fits128 (sval a * sval b) ->
+  wf (mul128 M a b) /\ sval (mul128 M a b) = Z.quot (sval a * sval b) M.
+Proof. exact mul128_exact. Qed.
+Print Assumptions C03_f128_mul_truncates_toward_zero.
+Theorem C03_f128_div_truncates_toward_zero : forall M, 10 <= M <= 10000000000000000 -> forall a b, wf a -> wf b -> fits128 (sval a * M) ->
+  (sval b = 0 -> div128 M a b = DivZero) /\
+  (sval b <> 0 -> fits128 (Z.quot (sval a * M) (sval b)) -> exists q, div128 M a b = Ok q /\ wf q /\ sval q = Z.quot (sval a * M) (sval b)).
+Proof. exact div128_exact. Qed.
+Print Assumptions C03_f128_div_truncates_toward_zero.
+Theorem C03_f128_trunc_exact : forall M, 10 <= M <= 10000000000000000 -> forall a, wf a ->
+  wf (trunc128 M a) /\ sval (trunc128 M a) = M * Z.quot (sval a) M.
+Proof. exact trunc128_exact. Qed.
+Print Assumptions C03_f128_trunc_exact.
+Theorem C03_f128_mod_is_remainder : forall M, 10 <= M <= 10000000000000000 -> forall a b, wf a -> wf b -> fits128 (sval a * M) ->
+  (sval b = 0 -> mod128 M a b = DivZero) /\
+  (sval b <> 0 -> fits128 (Z.quot (sval a * M) (sval b)) -> fits128 (sval b * M * Z.quot (sval a) (sval b)) ->
+     exists r, mod128 M a b = Ok r /\ wf r /\ sval r = Z.rem (sval a) (sval b)).
+Proof. exact mod128_exact. Qed.
+Print Assumptions C03_f128_mod_is_remainder.
+Theorem C03_f128_ceil_least_whole_above : forall M, 10 <= M <= 10000000000000000 -> forall a, wf a -> fits128 (M * Z.quot (sval a) M + M) ->
+  let c := sval (ceil128 M a) in
+  c = (if (0 <? sval a) && negb (sval a =? M * Z.quot (sval a) M) then M * Z.quot (sval a) M + M else M * Z.quot (sval a) M) /\
+  sval a <= c < sval a + M /\ Z.rem c M = 0.
+Proof. exact ceil128_exact. Qed.
+Print Assumptions C03_f128_ceil_least_whole_above.
+Theorem C03_f128_round_half_away_from_zero : forall M, 10 <= M <= 10000000000000000 -> forall a, wf a ->
+  fits128 (M * Z.quot (sval a) M + M) -> fits128 (M * Z.quot (sval a) M - M) -> Z.even M = true ->
+  let r := sval (round128 M a) in Z.rem r M = 0 /\ 2 * Z.abs (r - sval a) <= M /\ (2 * Z.abs (r - sval a) = M -> Z.abs (sval a) < Z.abs r).
+Proof. exact round128_exact. Qed.
+Print Assumptions C03_f128_round_half_away_from_zero.
+Theorem C03_f128_min_max_inc_dec : forall M, 10 <= M <= 10000000000000000 -> forall a b, wf a -> wf b ->
+  sval (min128 a b) = Z.min (sval a) (sval b) /\ sval (max128 a b) = Z.max (sval a) (sval b) /\
+  (fits128 (sval a + M) -> sval (inc128 M a) = sval a + M) /\ (fits128 (sval a - M) -> sval (dec128 M a) = sval a - M).
+Proof.
+  intros M HM a b Wa Wb. destruct (minmax128_exact a b Wa Wb) as [A B]. destruct (incdec128_exact M HM a Wa) as [C D].
+  split; [exact A|]. split; [exact B|]. split; [exact C|exact D].
+Qed.
+Print Assumptions C03_f128_min_max_inc_dec.
+(* non-vacuity: a 39-digit f128 value meets the hypotheses (12345678901234567890123456789012.345678 * 2 in D6) *)
+Example C03_ex_f128_mul : sval (mul128 1000000 (mk 669260594276 5027927973729429070) (From64 2000000)) = 2 * sval (mk 669260594276 5027927973729429070).
+Proof. vm_compute. reflexivity. Qed.
